@@ -250,6 +250,13 @@ func (c *Config) SetChild(name string, idx int, value *Config, opts ...Option) e
 	if value == nil {
 		return raiseNil(ErrNilConfig)
 	}
+	for p := c; p != nil; p = p.Parent() {
+		if p == value {
+			// a config below itself: Path, FlattenedKeys, Unpack ... would
+			// never come to an end
+			return raiseCyclicErr(name)
+		}
+	}
 	return c.setField(name, idx, cfgSub{c: value}, opts)
 }
 
